@@ -11,7 +11,7 @@ C07I = ["C07_Limits", "C07_Tail", "C07_CurrentSafe", "C01_NoTwin", "C06_NoDestru
 C09I = ["C09_OnePeriodPerFile", "C09_NoRotationInsidePeriod", "C09_TsNameIsStart", "C07_CurrentSafe", "C06_NoDestruction"]
 T = {
     "C01q":    ("Cfgs_C01q", "Lens_C01", "{1}", 1000, 3, 1, 2, 0, 1, C01I),
-    "C01t":    ("Cfgs_C01",  "Lens_C01", "{1}", 1000, 5, 1, 2, 0, 2, C01I),
+    "C01t":    ("Cfgs_C01",  "Lens_C01", "{1}", 1000, 4, 1, 2, 0, 2, C01I),
     "C01gen":  ("Cfgs_C01q", "Lens_C01", "{1}", 1000, 3, 1, 1, 0, 1, None),
     "C01gent": ("Cfgs_C01",  "Lens_C01", "{1}", 1000, 4, 1, 2, 0, 1, None),
     "C08q":    ("Cfgs_C08q", "Lens_C08", "{1}", 1000, 4, 2, 0, 0, 0, C08I),
